@@ -34,6 +34,8 @@ SOLVERS = {
 DEFAULT_STUBS = [
     '_ZNSt6vectorIhSaIhEE17_M_realloc_insertIJRKhEEEvN9__gnu_cxx17__normal_iteratorIPhS1_EEDpOT_',
     '_ZNSt6vectorIhSaIhEE17_M_realloc_insertIJhEEEvN9__gnu_cxx17__normal_iteratorIPhS1_EEDpOT_',
+    '_ZNSt6vectorIhSaIhEE14_M_fill_insertEN9__gnu_cxx17__normal_iteratorIPhS1_EEmRKh',
+    '_ZNSt6vectorIhSaIhEE17_M_default_appendEm',
 ]
 
 
